@@ -41,3 +41,11 @@ reg("C13", "model_checking",
     "uint16 generation counter through an overflow (Trace_Backtrack, real modulus)",
     "No oracle for the relational part; protocol models are trusted only as far as trace validation binds them to the code.",
     "TLA+ protocol models (RegexObject, Backtrack) + trace validation of recorded executions + relational replay", "DESIGN.md §6 C13")
+
+reg("C09", "model_checking",
+    "Every TLC-enumerated pattern string (all token strings of bounded length over the syntax alphabet, limit families at their boundaries) compiled by "
+    "regexp and coregex: acceptance, error text, MustCompile panic text, CompilePOSIX, String/NumSubexp/SubexpNames/SubexpIndex/LiteralPrefix/Marshal/Copy; "
+    "QuoteMeta against its TLA+ definition (with the unescape theorem checked by TLC); metadata of the AST universe against the specification's NCaps/Names; "
+    "RegexObject life-cycle transitions replayed",
+    "regexp is the judge of acceptance and of error texts - the specification generates the inputs and defines QuoteMeta and the metadata functions.",
+    "TLC-enumerated pattern strings and limit families; differential conformance with regexp as judge; TLA+ definitions for QuoteMeta/metadata", "DESIGN.md §6 C09")
